@@ -98,6 +98,13 @@ def monitor_pilot(rp, cur, seq, state, cbs, mcbs, errs):
         c = s
     if state != c:
         return ('state-differs-from-last-callback', '%s vs %s' % (state, c))
+    # every forward notification takes effect (gaps are filled in, not rejected)
+    exp = cur
+    for t in seq:
+        if exp not in FINAL and vals[t] > vals[exp]:
+            exp = t
+    if state != exp:
+        return ('forward-notification-lost', 'after %s from %s the pilot is %s, expected %s' % (seq, cur, state, exp))
     if cur in FINAL and state != cur:
         return ('final-state-left', '%s -> %s' % (cur, state))
     return None
